@@ -854,7 +854,11 @@ func runConfigScenario(kind string, steps []cfgStep) []Event {
 			case "fb":
 				opts = append(opts, flyt.WithExecFallbackFunc(fbFn(s.Val)))
 			default:
-				opts = append(opts, baseOpt(s))
+				if s.Sty == "f" {
+					opts = append(opts, (func(*flyt.BaseNode))(baseOpt(s))) // the unnamed function type
+				} else {
+					opts = append(opts, baseOpt(s))
+				}
 			}
 		}
 		if kind == "node" {
@@ -1216,6 +1220,9 @@ func init() {
 				sty := "r"
 				if !base && prm != "fb" && r.Intn(2) == 0 && (kind == "node" || prm == "exec") {
 					sty = "a"
+				}
+				if base && form == "opt" && r.Intn(2) == 0 {
+					sty = "f"
 				}
 				s := cfgStep{prm, form, val, sty}
 				if form == "opt" {
